@@ -2106,9 +2106,10 @@ theorem C20_gen_round4_constants :
         "new_service.install_duration = int(defaults_config['service_install_duration'])")] ∧
     (Gen.Config.defaultsLanding.map (·.1)).eraseDups = ["folder_restore_duration", "folder_scan_duration", "node_scan_duration",
       "node_shut_down_duration", "node_start_up_duration", "service_fix_duration", "service_install_duration", "service_restart_duration"] ∧
-    Gen.Config.aclAddressKeys.map (·.1) = ["Router", "Firewall", "Firewall", "Firewall", "Firewall", "Firewall", "Firewall", "WirelessRouter"] ∧
-    Gen.Config.aclAddressKeys.all (fun e => e.2 = ("r_cfg.get('src_ip', r_cfg.get('src_ip_address'))",
-      "r_cfg.get('dst_ip', r_cfg.get('dst_ip_address'))", "r_cfg.get('src_wildcard_mask')", "r_cfg.get('dst_wildcard_mask')")) = true := by
+    -- how many `add_rule` calls each loader has (one router ACL, six firewall ACLs, one wireless-router ACL); WHAT each call reads
+    -- for the two spellings of an address is no longer a text pin: every keyword expression of every one of these calls is
+    -- TRANSLATED and proved in Props/C20Resolve.lean (`C20_gen_kwargs_resolve`, `C20_acl_address_first_declared_spelling`)
+    Gen.Config.aclAddressKeys.map (·.1) = ["Router", "Firewall", "Firewall", "Firewall", "Firewall", "Firewall", "Firewall", "WirelessRouter"] := by
   decide
 
 end Primaite.Config
